@@ -42,6 +42,17 @@ type Listener struct {
 	backlog []*End
 	closed  bool
 	Accepts int
+	// AcceptErr, when set, is returned by the next Accept (once): descriptor exhaustion, an aborted connection ...
+	AcceptErr error
+	// CloseErr, when set, is returned by Close (the listener is closed all the same, as close(2) does)
+	CloseErr error
+}
+
+// FailNextAccept makes the next Accept (or the one parked now) return err.
+func (l *Listener) FailNextAccept(err error) {
+	l.N.mu.Lock()
+	l.AcceptErr = err
+	l.N.mu.Unlock()
 }
 
 func opErr(op string, err error) error {
@@ -82,7 +93,7 @@ func (l *Listener) Accept() (net.Conn, error) {
 		ab := n.S.Park(name, "accept", l, func() bool {
 			n.mu.Lock()
 			defer n.mu.Unlock()
-			return l.closed || len(l.backlog) > 0
+			return l.closed || len(l.backlog) > 0 || l.AcceptErr != nil
 		})
 		if ab {
 			return nil, opErr("accept", ErrAborted)
@@ -93,6 +104,11 @@ func (l *Listener) Accept() (net.Conn, error) {
 	if l.closed {
 		n.S.Logf(name, "accept -> closed")
 		return nil, opErr("accept", net.ErrClosed)
+	}
+	if err := l.AcceptErr; err != nil {
+		l.AcceptErr = nil
+		n.S.Logf(name, "accept -> %v (injected)", err)
+		return nil, opErr("accept", err)
 	}
 	if len(l.backlog) == 0 {
 		// only reachable in free-running mode; handled by the caller of that mode
@@ -126,6 +142,10 @@ func (l *Listener) Close() error {
 		e.closed = true
 	}
 	l.backlog = nil
+	if err := l.CloseErr; err != nil {
+		n.S.Logf(fmt.Sprintf("L%d", l.ID), "close -> %v (injected; closed all the same)", err)
+		return opErr("close", err)
+	}
 	n.S.Logf(fmt.Sprintf("L%d", l.ID), "close")
 	return nil
 }
